@@ -171,6 +171,19 @@ def argmin(ctx) -> None:
                 ok_id = a[0] == "call" and a[1] == "torch.arange" and "shape[0]" in show(a[2][0])
         el = strip_typed(cand[2][0])
         ok_elem = el[0] == "call" and el[1] == OPTM + "minimize_bandwidth_impl" and strip_typed(el[2][1])[0] == "elem"
+    # every start permutation is its own tensor: minimize_bandwidth_impl hands a start back un-copied when nothing improves,
+    # so a buffer shared between candidates (randperm(L, out=…)) is overwritten after its bandwidth was recorded
+    shared = None
+    if cand is not None:
+        src0 = strip_typed(cand[3][0][0])
+        if src0[0] == "call" and src0[1] == "itertools.chain":
+            for t in walk(src0):
+                if t[0] == "call" and t[1] in ("torch.randperm", "torch.arange") and any(k == "out" for k, _ in t[3]):
+                    shared = f"{t[1].split('.')[-1]}(…, out={show(dict(t[3])['out'])[:30]})"
+    ctx.ob("ARGMIN", "start permutations are independent tensors", f.loc(), shared is None,
+           "every start permutation is a freshly allocated tensor" if shared is None else
+           f"start permutations are written into a shared buffer ({shared}): a candidate that minimize_bandwidth_impl returns "
+           f"un-copied is overwritten by the next draw while its recorded bandwidth stays — the arg-min is a random permutation")
     ctx.ob("ARGMIN", "identity is a candidate", f.loc(), ok_id,
            "the candidate start permutations begin with the identity arange(L)" if ok_id else
            "the identity permutation is not among the start permutations: the result can be worse than the input order")
